@@ -73,6 +73,10 @@ pub struct LoopCase {
     /// allocator operation at all next to one that does.
     #[serde(default)]
     pub alloc_threads: Option<u32>,
+    /// Do not force the timer precision: the loop asks `Timer::precision()` (measured under the virtual
+    /// clock and cached per process and timer kind).
+    #[serde(default)]
+    pub unforced_precision: bool,
     /// Clock ticks consumed per execution of each site, indexed by the thread's
     /// round (last entry repeats).
     pub cost: [Vec<u64>; 5],
@@ -107,6 +111,7 @@ impl LoopCase {
             alloc: [0; 5],
             alloc_until_round: None,
             alloc_threads: None,
+            unforced_precision: false,
             cost: [vec![0], vec![0], vec![1000], vec![0], vec![0]],
             thread_skew: 0,
             read_cost: 0,
@@ -683,7 +688,7 @@ pub fn run_case(case: &LoopCase) -> LoopOutcome {
     log::reset();
     POOL_INDEX.lock().unwrap_or_else(|e| e.into_inner()).clear();
     clock::enable(case.freq, 1_000_000, case.read_cost, case.horizon);
-    clock::force_precision(Some(case.precision_ps as u128));
+    clock::force_precision(if case.unforced_precision { None } else { Some(case.precision_ps as u128) });
     clock::force_overheads(Some(case.overhead_ps.map(|p| p as u128)));
     verif::tally_clear();
 
